@@ -41,7 +41,8 @@ void vmock_reset_config(void)
 
 uint8_t vmock_pixel(int acq, int stream, uint64_t frame, uint32_t i)
 {
-    return (uint8_t)(1 + 17 * acq + 61 * stream + 7 * frame + 3 * i);
+    // every third byte has its top bit set: signed sample types (i8, and i16 through its high byte) see negative values too
+    return (uint8_t)((1 + 17 * acq + 61 * stream + 7 * frame + 3 * i) ^ (i % 3 == 1 ? 0x80 : 0));
 }
 
 static size_t type_bytes(int type)
